@@ -235,7 +235,9 @@ def c_unknowns(rng, W):
 def c_option_flag(rng, W):
     a, b, c = W.word(), W.word(), W.word()
     doc = ('\\section{%s}\n%s\\footnote{%s.} \\LTskip{hid} %% comm\n'
-           '\\[ x = y \\]\n\\textbf{%s} \\emph{x}.\n' % (a, b, c, W.word()))
+           '\\[ x = y \\]\n\\textbf{%s} \\emph{x}.\n'
+           'Written in \\LaTeX{} and \\TeX, see \\ref{s} on page \\pageref{s}, '
+           'Stra\\ss{}e \\S 3 \\quad x\\newline y.\n' % (a, b, c, W.word()))
     flag = rng.choice([
         ('extr', {'extr': rng.choice(['footnote,section', 'section',
                                       'textbf,emph', 'caption'])}),
@@ -347,6 +349,11 @@ def gen_lib_plan(rng, idx):
                       carrier=car['name'])
         pairs.append((pol, probe, rng.choice([0, 0, 0, 1, 1, 2])))
     pre = [filler_op(rng, W) for _ in range(rng.choice([0, 0, 1, 2]))]
+    if any(p_[0]['carrier'].startswith('option_flag') for p_ in pairs) \
+            and rng.random() < 0.7:
+        # "the very first call of the process" is a position of its own
+        # (whatever is built once is built by that call)
+        pre = []
     ops += pre
     for pol, probe, dist in pairs:
         ops.append(pol)
